@@ -12,7 +12,8 @@ EXPLANATION = ("R20.1 framing: on every path of every emitting body of the file 
                "`now` parameter (no DeferredNow::new, no direct clock read); R20.3 one DeferredNow per log call, handed to every output; inside "
                "DeferredNow the clock is read only by now(), through Option::get_or_insert_with, and every other accessor goes through now() (so the "
                "first reading is cached also in UTC mode); R20.4 each provided format function renders record.args() through Display exactly once "
-               "on every successful path and takes level/module/file/line from the record's accessors. R20.5 each output stream is rendered with its own configured format function (duplication table shared with R13.3).")
+               "on every successful path and takes level/module/file/line from the record's accessors. R20.5 each output stream is rendered with its own configured format function (duplication table shared with R13.3)."
+               " R20.6 (= R13.7) stream wiring of the format functions from the Logger setters to the writers' fields.")
 ASSUMPTIONS = ["serde_json::to_string yields one valid single-line JSON object (serde_json)", "nu_ansi_term::paint only wraps the text", "chrono formatting"]
 NOT_DECIDED = ["byte-exact rendering", "JSON escaping", "ANSI wrapping"]
 FLOORS = {'R20.1': 4, 'R20.2': 9, 'R20.3': 4, 'R20.4': 9}
@@ -38,6 +39,10 @@ def run(R, ctx):
     R.rule('R20.5', 'each output stream is rendered with its own configured format function (shared with R13.3)')
     import c13 as _c13
     _c13.duplication(_c13._Relabel(R, 'R13.3', 'R20.5'), ctx)
+    # ... and the format function configured for a stream reaches that stream's slot (construction chain, stream by stream)
+    R.rule('R20.6', 'stream wiring: the format function set for a stream reaches that stream (setter -> field -> build -> constructor -> field)')
+    import wiring
+    wiring.wiring(R, ctx, 'R20.6')
 
 
 class _Suffix:
